@@ -1225,6 +1225,106 @@ def run_bingham(ctx):
                          {"coded": coded, "kgm": b2f(int(w[3]))}, thr, "acceptance probability of the scripted proposal")
 
 
+# ------------------------------------------------------------------------------------------------ live objects
+
+ATTR = {"eps": "epsilon", "delta": "delta", "sens": "sensitivity", "ds": "data_sensitivity", "fs": "function_sensitivity",
+        "alpha": "alpha"}
+ASSIGNABLE = {"lap": ["eps", "delta", "sens"], "trunc": ["eps", "delta", "sens"], "fold": ["eps", "delta", "sens"],
+              "bdom": ["eps", "delta", "sens"], "bnoise": ["eps", "delta", "sens"], "gauss": ["eps", "delta", "sens"],
+              "gaussA": ["eps", "delta", "sens"], "dgauss": ["eps", "delta", "sens"], "stair": ["eps", "sens"],
+              "unif": ["delta", "sens"], "vec": ["eps", "ds", "fs", "alpha"], "snap": ["eps", "sens"]}
+CLASSNAME = {"lap": "Laplace", "trunc": "LaplaceTruncated", "fold": "LaplaceFolded", "bdom": "LaplaceBoundedDomain",
+             "bnoise": "LaplaceBoundedNoise", "gauss": "Gaussian", "gaussA": "GaussianAnalytic", "dgauss": "GaussianDiscrete",
+             "stair": "Staircase", "unif": "Uniform", "vec": "Vector", "snap": "Snapping"}
+
+
+def rewind(rng):
+    """our own scripted generator, handed in through random_state=: start the same stream again"""
+    for a in ("n_uniform", "n_bits", "n_normal", "n_gamma", "n_geom"):
+        if hasattr(rng, a):
+            setattr(rng, a, 0)
+    if hasattr(rng, "log"):
+        del rng.log[:]
+
+
+def released(kind, m, x, p):
+    if kind == "vec":
+        fn = zero_fn(p["d"])
+        b, delta, _ = vec_extract(m.randomise(fn), p["d"], p["n"], fn)
+        return ("vec", [float(v) for v in b], float(delta))
+    v = m.randomise(x)
+    return int(v) if kind == "dgauss" else float(v)
+
+
+def live_sequence(kind, p1, p2, attrs, use_copy, x, script):
+    """construct(p1) → randomise once → assign the attributes `attrs` (values of p2), on the object or on a .copy() →
+    randomise again on the SAME stream; compare with a fresh instance built with the current parameters on that stream.
+    Returns None (fine / not applicable) or a description of the failure."""
+    rng = make_rng(kind, script)
+    try:
+        m = mk_mech(kind, p1, rng)
+        first = released(kind, m, x, p1)
+        tgt = m.copy() if use_copy else m
+        for a in attrs:
+            setattr(tgt, ATTR[a], p2[a])
+        cur = dict(p1)
+        cur.update({a: p2[a] for a in attrs})
+        if kind == "stair":
+            cur["gamma"] = float(m.gamma)        # gamma is a parameter of its own once the object exists
+        rewind(tgt._rng if kind == "stair" else rng)
+        second = released(kind, tgt, x, cur)
+        fresh = released(kind, mk_mech(kind, cur, make_rng(kind, script)), x, cur)
+    except seams.ScriptExhausted:
+        return None
+    if second == fresh or (second != second and fresh != fresh):
+        return None
+    return (f"{CLASSNAME[kind]}({p1}).randomise({x!r}) once, then {'on a .copy(): ' if use_copy else ''}"
+            f"{', '.join(f'{ATTR[a]} = {p2[a]!r}' for a in attrs)}; randomise({x!r}) on the same stream releases {second!r}, a fresh "
+            f"{CLASSNAME[kind]} with the current parameters releases {fresh!r} (first release: {first!r})")
+
+
+def gen_live(kind, r):
+    c1, c2 = gen_case(kind, r), gen_case(kind, r)
+    p1, p2 = c1["params"], c2["params"]
+    if kind in ("lap", "trunc", "fold"):
+        for p in (p1, p2):
+            if p["eps"] == 0.0:
+                p["eps"] = 0.5       # keep every intermediate combination (epsilon, delta) valid
+    if kind == "bdom":
+        w = p1["hi"] - p1["lo"]
+        p2["sens"] = w * r.uniform(0.05, 1.0)
+    names = ASSIGNABLE[kind]
+    k = r.randint(1, len(names))
+    attrs = r.sample(names, k)
+    return {"kind": kind, "p1": p1, "p2": {a: p2[a] for a in names}, "attrs": attrs, "copy": r.chance(0.4),
+            "x": c1["xs"][1] if kind != "vec" else 0, "script": c1["script"]}
+
+
+def run_live(ctx):
+    r = ctx.fork("live")
+    n = ctx.budget(30, 300)
+    for kind in KINDS:
+        rk = r.fork(kind)
+        for _ in range(n):
+            lc = gen_live(kind, rk)
+            ctx.case(("live", kind, tuple(lc["attrs"]), lc["copy"], repr(lc["p2"])))
+            try:
+                bad = live_sequence(kind, lc["p1"], lc["p2"], lc["attrs"], lc["copy"], lc["x"], lc["script"])
+            except Exception as e:     # a valid assignment made randomise raise
+                bad = f"{CLASSNAME[kind]}({lc['p1']}) after assigning {lc['attrs']} from {lc['p2']}: {type(e).__name__}: {e}"
+            if bad:
+                ctx.violation(f"C03:{CLASSNAME[kind]}:stale-scale-after-assignment", bad, {"check": "live", "live": lc})
+            else:
+                ctx.trace_ok()
+
+
+def _stale_witness(kind, p1, attrs, p2, x, script):
+    def w(ctx):
+        bad = live_sequence(kind, p1, p2, attrs, False, x, script)
+        return bad is not None, bad or ""
+    return w
+
+
 # ------------------------------------------------------------------------------------------------ entry points
 
 def nontrivial_key(case, info):
@@ -1282,6 +1382,7 @@ def check(ctx):
         if compare_case(ctx, case, info, o):
             ctx.trace_ok()
     ctx.count("driver_lines", len(all_lines))
+    run_live(ctx)
     run_bingham(ctx)
     run_stats(ctx)
 
@@ -1291,6 +1392,9 @@ def replay(ctx, data):
     if d.get("check") == "stat":
         res = stat_test(d["name"], d["params"], int(d["seed"]), int(d["n"]))
         return any(not rec[1] <= rec[2] for rec in res)
+    if d.get("check") == "live":
+        lc = d["live"]
+        return live_sequence(lc["kind"], lc["p1"], lc["p2"], lc["attrs"], lc["copy"], lc["x"], lc["script"]) is not None
     case = d["case"]
     eval_case(ctx, case)
     return len(ctx.violations) > 0
